@@ -34,20 +34,40 @@ use self::{
 
 pub struct Validator {
     tlds: BTreeMap<String, ToplevelDefinition>,
+    /// Definitions are looked up by their bare name. A definition that is followed by
+    /// another one of the same name is replaced by it, which is reported as a warning.
+    replaced: Vec<LinkerError>,
 }
 
 impl Validator {
     pub fn new(tlds: Vec<ToplevelDefinition>) -> Validator {
+        let mut replaced = Vec::new();
+        let mut by_name = BTreeMap::new();
+        for tld in tlds {
+            if let Some(previous) = by_name.insert(tld.name().to_owned(), tld) {
+                let module = previous
+                    .get_module_header()
+                    .map_or(<_>::default(), |module| module.borrow().name.clone());
+                replaced.push(LinkerError::new(
+                    Some(previous.name().to_owned()),
+                    &format!(
+                        "The definition in module {module} is replaced by a later definition of the same name. No bindings are generated for it."
+                    ),
+                    LinkerErrorType::Unknown,
+                ));
+            }
+        }
         Self {
-            tlds: tlds
-                .into_iter()
-                .map(|tld| (tld.name().to_owned(), tld))
-                .collect(),
+            tlds: by_name,
+            replaced,
         }
     }
 
     fn link(mut self) -> Result<(Self, Vec<CompilerError>), LinkerError> {
-        let mut warnings: Vec<CompilerError> = vec![];
+        let mut warnings: Vec<CompilerError> = std::mem::take(&mut self.replaced)
+            .into_iter()
+            .map(CompilerError::from)
+            .collect();
         // Linking of ASN1 values depends on linked ASN1 types, so we order the key collection accordingly (note that we pop keys)
         let mut keys = self
             .tlds
